@@ -342,6 +342,13 @@ def check(spec, ctx):
     if not geoms and not np.all(got == fill):
         ctx.fail("no geometries but some cells differ from fill", spec, got.tolist(), fill, kind="fill")
 
+    # two threads rasterising: this call is suspended at lines inside the library while the other thread burns the same geometries in
+    # reverse order (another overwrite order) with all_touched flipped
+    if geoms:
+        kw_other = dict(kw, all_touched=not spec["all_touched"])
+        ras = lambda gs, k: rasterize(gs, arr, **k).transpose("time", "frequency").values.tolist()  # noqa: E731
+        ctx.interleave(spec, "rasterize", lambda: ras(geoms, kw), lambda: ras(geoms[::-1], {k: (v[::-1] if isinstance(v, (list, tuple)) else v) for k, v in kw_other.items()}), every=5, max_pauses=32)
+
     # geometries and template after a pickle round trip (worker processes, caches) give the same raster
     import pickle
 
